@@ -153,6 +153,22 @@ Theorem C16_policy_denied_only_for_denial : forall o status attempt max,
   classify (result_of o status) attempt max = LMarkDead DPolicyDenied <-> exists why, o = OStopped (Deny why).
 Proof. exact policy_denied_only_for_denial. Qed.
 
+(** REFUTED on the current code (kept faithful; see docs/notes/C16.md): an IP or CIDR rule written
+    in IPv4-mapped notation (::ffff:a.b.c.d[/n], n >= 96) matches no address at all, so a deny rule
+    naming a target's own address in that notation does not stop the delivery.  The check replays the
+    witness on the implementation under the key deny-rule-in-ipv4-mapped-notation-never-matches. *)
+Theorem C16_deny_ip_rule_mapped_notation_refuted :
+  exists p u a,
+    p_deny p = [cidr_rule F6 a 128] /\
+    h_literal u = Some {| ip_fam := F6; ip_val := a |} /\
+    check p u = Allow.
+Proof. exact deny_ip_rule_mapped_notation_refuted. Qed.
+
+Theorem C16_mapped_notation_rule_never_hits : forall px i,
+  px_fam px = F6 -> (96 <= px_bits px)%N -> (mapped_lo <= px_addr px <= mapped_hi)%N -> wf_ip i ->
+  cidr_hit px i = false.
+Proof. exact mapped_notation_rule_never_hits. Qed.
+
 Print Assumptions C16_rebind_safe.
 Print Assumptions C16_allowed_ip_exact.
 Print Assumptions C16_classes_are_rfc_ranges.
@@ -176,3 +192,5 @@ Print Assumptions C16_refusal_is_first_bad_hop.
 Print Assumptions C16_denied_target_sends_nothing.
 Print Assumptions C16_denied_is_dead_unretried.
 Print Assumptions C16_policy_denied_only_for_denial.
+Print Assumptions C16_deny_ip_rule_mapped_notation_refuted.
+Print Assumptions C16_mapped_notation_rule_never_hits.
